@@ -381,6 +381,8 @@ fn collect_labels(nodes: &[Node], out: &mut Vec<String>) {
 /// many trees that share one process cwd (engine multibuild).
 #[derive(Clone, Debug, Default)]
 pub struct Layout {
+    /// Some(d): a chain main -> c1 -> c2 ... of this depth instead of a bushy tree
+    pub chain_depth: Option<usize>,
     /// "" or "trees/7/" (with the trailing slash)
     pub base: String,
     pub cwd: Option<String>,
@@ -436,7 +438,49 @@ pub fn scenario_with(seed: u64, g: u64, layout: &Layout) -> Scenario {
         twice_uses: 0,
         labels,
     };
-    let nodes = tg.process(prog.nodes.clone(), 0, 0);
+    // now and then (or on request) a deep chain: every file holds a piece of the program and
+    // includes the next one, so d files are open at the deepest point
+    let chain = layout.chain_depth.or_else(|| if tg.r.chance(1, 30) { Some(tg.r.range(9, 24) as usize) } else { None });
+    let nodes = match chain {
+        None => tg.process(prog.nodes.clone(), 0, 0),
+        Some(d) => {
+            let mut pieces: Vec<Vec<Node>> = vec![vec![]; d + 1];
+            let n = prog.nodes.len().max(1);
+            for (i, node) in prog.nodes.iter().enumerate() {
+                pieces[i * (d + 1) / n].push(node.clone());
+            }
+            // build from the deepest file upwards
+            let mut parent_of: Vec<usize> = vec![0];
+            for k in 1..=d {
+                let idx = tg.files.len();
+                let dir = if k % 3 == 0 { tg.caller_dirs[0].clone() } else { tg.files[0].0.clone() };
+                if k % 3 == 0 {
+                    tg.used_caller.insert(0);
+                }
+                tg.files.push((dir, format!("c{}.inc", k), Some(parent_of[k - 1]), vec![]));
+                tg.prepend.push(vec![]);
+                tg.has_children.push(k < d);
+                tg.leaf_only.push(true);
+                parent_of.push(idx);
+            }
+            for k in (1..=d).rev() {
+                let mut l = vec![];
+                proggen::flatten_nodes(&pieces[k], &mut l);
+                if l.is_empty() {
+                    l.push("    nop".to_string());
+                }
+                if k < d {
+                    l.push(format!(".include \"c{}.inc\"", k + 1));
+                }
+                let idx = parent_of[k];
+                tg.files[idx].3 = l;
+                tg.edges.push((parent_of[k - 1], idx, if k % 3 == 0 { "c".into() } else { "p".into() }));
+            }
+            let mut top = pieces[0].clone();
+            top.push(Node::Lines(vec![".include \"c1.inc\"".to_string()]));
+            top
+        }
+    };
     let mut lines = vec![];
     proggen::flatten_nodes(&nodes, &mut lines);
     if tg.r.chance(1, 6) {
@@ -451,11 +495,59 @@ pub fn scenario_with(seed: u64, g: u64, layout: &Layout) -> Scenario {
         all.extend(lines.iter().cloned());
         // text formats that must not matter: CRLF line ends, no newline at the end of the file
         let eol = if tg.r.chance(1, 7) { "\r\n" } else { "\n" };
+        // now and then a file is padded with comment lines so that a multi-byte character
+        // straddles a power-of-two offset (block-wise readers, buffer boundaries)
+        if tg.r.chance(1, 40) {
+            let b = [512usize, 1024, 4096, 8192, 8192, 16384, 32768, 65536][tg.r.usize(8)];
+            let ch = ["\u{b5}", "\u{20ac}", "\u{1d11e}"][tg.r.usize(3)];
+            let mut pad: Vec<String> = vec![];
+            let mut off = 0usize;
+            let line = format!("; {}", "padding ".repeat(7));
+            while off + line.len() + eol.len() + 80 <= b {
+                off += line.len() + eol.len();
+                pad.push(line.clone());
+            }
+            // the character's first byte lands on offset b-1
+            let fill = b - 1 - off - 1;
+            pad.push(format!(";{}{} straddles offset {}", "p".repeat(fill), ch, b));
+            pad.extend(all.iter().cloned());
+            all = pad;
+        }
         let mut text = all.join(eol);
         if !tg.r.chance(1, 7) || all.is_empty() {
             text.push_str(eol);
         }
         files.insert(format!("{}/{}", dir, name), text);
+    }
+    // decoys: a plain file where an include name expects a directory, in a directory that is
+    // searched before or after the one that holds the real file ("s1" for `.include "s1/f.inc"`)
+    let wanted_subs: Vec<String> = files
+        .values()
+        .flat_map(|t| t.lines().filter_map(parse_include).collect::<Vec<_>>())
+        .filter_map(|n| {
+            let n = n.trim_start_matches("./").to_string();
+            if n.starts_with("$R") || !n.contains('/') {
+                None
+            } else {
+                n.split('/').next().map(|s| s.to_string())
+            }
+        })
+        .collect();
+    for sub in wanted_subs {
+        if !tg.r.chance(1, 3) {
+            continue;
+        }
+        let mut dirs: Vec<String> = caller_dirs.clone();
+        if layout.cwd.is_none() {
+            dirs.push(cwd.clone()); // a cwd shared with other trees gets no decoys
+        }
+        dirs.push(main_dir.clone());
+        let d = dirs[tg.r.usize(dirs.len())].clone();
+        let decoy = format!("{}/{}", d, sub);
+        let prefix = format!("{}/", decoy);
+        if !files.contains_key(&decoy) && !files.keys().any(|k| k.starts_with(&prefix)) {
+            files.insert(decoy, "; a plain file, not a directory\n".to_string());
+        }
     }
     let edges: Vec<(String, String, String)> = tg.edges.iter().map(|(p, c, k)| (format!("{}/{}", tg.files[*p].0, tg.files[*p].1), format!("{}/{}", tg.files[*c].0, tg.files[*c].1), k.clone())).collect();
     let main_file = format!("{}/{}", main_dir, main_name);
@@ -1304,7 +1396,20 @@ pub fn worker(cfg: &WorkerCfg, emit: &mut dyn FnMut(Violation)) -> Stats {
                         cx.stats.probe("second_build_after_an_include_was_edited", true);
                     } else if let Some(name) = sc.files.values().flat_map(|t| t.lines()).filter_map(parse_include).find(|n| basename(n) == written) {
                         // moved to "the path as written" relative to the cwd
-                        if let Some(d) = incmodel::join_norm(&sc.cwd, &name) {
+                        let clash = |d: &str| -> bool {
+                            // a component of the new path is a plain file (a decoy), or the new
+                            // path is a directory of the tree
+                            let mut anc = d;
+                            while let Some(i) = anc.rfind('/') {
+                                anc = &anc[..i];
+                                if sc.files.contains_key(anc) {
+                                    return true;
+                                }
+                            }
+                            let pre = format!("{}/", d);
+                            sc.files.keys().any(|k| k.starts_with(&pre))
+                        };
+                        if let Some(d) = incmodel::join_norm(&sc.cwd, &name).filter(|d| !clash(d)) {
                             f.then_remove.push(e.1.clone());
                             f.then_write.insert(d, format!("    ldi r21, {}\n{}", 10 + r.below(200), text));
                             cx.stats.probe("second_build_after_an_include_was_moved", true);
